@@ -1159,6 +1159,9 @@ type dialScn struct {
 	Target    string `json:"target"` // tcp4, tcp6, unix, refused, blackhole, reset
 	TimeoutUS int    `json:"timeout_us"`
 	N         int    `json:"n"` // concurrent dials
+	// Sweep > 0: every dialling goroutine performs that many dials one after the other with timeouts swept
+	// from 10% to 200% of timeout_us: some of them expire within microseconds of the connect result
+	Sweep int `json:"sweep,omitempty"`
 }
 
 // blackhole returns the address of a listener whose accept queue is full: further SYNs are dropped.
@@ -1225,6 +1228,8 @@ func connIsNil(c Connection) bool {
 	}
 	return false
 }
+
+var errSweepClosed = fmt.Errorf("sweep: dial succeeded, connection closed at once")
 
 func runDial(s dialScn) (sig, msg string, timedOut, failed int) {
 	e3Init()
@@ -1297,16 +1302,31 @@ func runDial(s dialScn) (sig, msg string, timedOut, failed int) {
 		err  error
 		took time.Duration
 	}
-	results := make([]res, s.N)
+	per := 1
+	if s.Sweep > 0 {
+		per = s.Sweep
+	}
+	results := make([]res, s.N*per)
 	var wg sync.WaitGroup
 	for i := 0; i < s.N; i++ {
 		i := i
 		wg.Add(1)
 		go func() {
 			defer wg.Done()
-			t0 := time.Now()
-			c, err := DialConnection(network, addr, timeout)
-			results[i] = res{c, err, time.Since(t0)}
+			for j := 0; j < per; j++ {
+				to := timeout
+				if s.Sweep > 0 {
+					to = timeout/10 + time.Duration(int64(timeout)*19/10*int64(j)/int64(per))
+				}
+				t0 := time.Now()
+				c, err := DialConnection(network, addr, to)
+				results[i*per+j] = res{c, err, time.Since(t0)}
+				if s.Sweep > 0 && err == nil && !connIsNil(c) {
+					c.Close()
+					results[i*per+j].conn = nil
+					results[i*per+j].err = errSweepClosed
+				}
+			}
 		}()
 	}
 	donec := make(chan struct{})
@@ -1327,6 +1347,12 @@ func runDial(s dialScn) (sig, msg string, timedOut, failed int) {
 		}
 		if r.took > timeout+5*time.Second {
 			return "timeout-ignored", fmt.Sprintf("dial %d took %v with a %v timeout", i, r.took, timeout), 0, 0
+		}
+		if r.err == errSweepClosed {
+			if s.Target == "refused" || s.Target == "blackhole" {
+				return "impossible-success", fmt.Sprintf("dial %d to a %s target succeeded", i, s.Target), timedOut, failed
+			}
+			continue // a successful dial of a sweep: closed at once
 		}
 		if r.err != nil {
 			failed++
@@ -1421,6 +1447,13 @@ func TestVerifC14(t *testing.T) {
 		}
 		s.TimeoutUS = rapid.SampledFrom([]int{50, 100, 200, 500, 1000, 5000, 20000, 100000, 300000}).Draw(t, "timeout")
 		s.N = rapid.SampledFrom([]int{1, 1, 2, 8, 32}).Draw(t, "n")
+		if s.TimeoutUS <= 1000 && s.Target != "blackhole" && rapid.Bool().Draw(t, "sweep") {
+			s.Sweep = rapid.SampledFrom([]int{50, 200, 1000}).Draw(t, "sweepN")
+			if s.N > 8 {
+				s.N = 8
+			}
+			st.class("timeout-sweep")
+		}
 		sig, msg, timedOut, failed := runDial(s)
 		st.eval()
 		if sig != "" {
